@@ -13,6 +13,22 @@ GATHER = ("glob", "ext:asyncio.gather")
 SHIELD = ("glob", "ext:asyncio.shield")
 
 
+def is_awaited(evs, i):
+    """is the call of event i awaited: directly, through a later `await <value>`, or via an awaited shield/wait_for"""
+    e = evs[i]
+    if e[3]:
+        return True
+    ct = e[1]
+    for e2 in evs[i + 1 :]:
+        if e2[0] == "await" and e2[1] == ct:
+            return True
+        if e2[0] == "call" and e2[1][1] in (SHIELD, ("glob", "ext:asyncio.wait_for")) and ct in e2[1][2]:
+            j = evs.index(e2)
+            if is_awaited(evs, j):
+                return True
+    return False
+
+
 def find_close_all(prog):
     """the MetaRunner coroutine that awaits runner.aclose() for the runners"""
     cls = prog.cls(META)
@@ -46,15 +62,17 @@ def supervisor(chk):
             if not any(ev[0] == "raised-at-call" for ev in evs):
                 continue
             closes = [(i, ev) for i, ev in enumerate(evs) if ev[0] == "call" and ev[1][1] == CLOSE]
-            awaited_ok = False
-            for i, ev in closes:
-                if ev[3]:
-                    awaited_ok = True
-                else:
-                    # handed to an awaited shield / wait_for
-                    for ev2 in evs[i:]:
-                        if ev2[0] == "call" and ev2[1][1] in (SHIELD, ("glob", "ext:asyncio.wait_for")) and ev[1] in ev2[1][2] and ev2[3]:
-                            awaited_ok = True
+            awaited_ok = any(is_awaited(evs, i) for i, _ev in closes)
+            if label == "KeyboardInterrupt" and o.kind == "raise":
+                chk.bad(
+                    rule,
+                    name,
+                    "a KeyboardInterrupt at the join is re-raised by the supervising coroutine: raising it inside the event loop aborts the loop again before asyncio.run has waited for the trio thread, so run() returns while trio payloads are still cleaning up (it must be absorbed here after close-all; MetaRunner.run treats the interrupt as a clean stop anyway)",
+                    node=fi.node,
+                    stmt="kbi-reraised",
+                    input=label,
+                )
+                ok = False
             if not closes:
                 chk.bad(rule, name, "when the join over the runners ends with %s, the supervising coroutine exits without closing the runners: running payloads are not cancelled before run() returns" % label, node=fi.node, stmt="no-close-all on %s" % label, input=label)
                 ok = False
@@ -81,7 +99,8 @@ def supervisor(chk):
         evs = o.path.events
         iters = [e for e in evs if e[0] == "loop-iter"]
         acl = [e for e in evs if e[0] == "call" and e[1][1][0] == "attr" and e[1][1][2] == "aclose"]
-        if len(acl) != len(iters) or any(not e[3] for e in acl):
+        acl_idx = [i for i, e in enumerate(evs) if e[0] == "call" and e[1][1][0] == "attr" and e[1][1][2] == "aclose"]
+        if len(acl) != len(iters) or any(not is_awaited(evs, i) for i in acl_idx):
             chk.bad(rule, name, "close-all does not await aclose() of every runner (%d runners, %d awaited aclose)" % (len(iters), len([e for e in acl if e[3]])), node=close.node, stmt="aclose-each")
             ok = False
             break
@@ -90,7 +109,7 @@ def supervisor(chk):
             if not (src[0] == "item" and strip_sites(src[1]) == ("call", ("attr", RUNNERS, "values"), (), ())):
                 chk.bad(rule, name, "close-all ranges over %s instead of all runners" % show(src), node=close.node, stmt="aclose-domain")
                 ok = False
-        joins = [(i, e) for i, e in enumerate(evs) if e[0] == "call" and e[1][1] in (GATHER, ("glob", "ext:asyncio.wait")) and e[3]]
+        joins = [(i, e) for i, e in enumerate(evs) if e[0] == "call" and e[1][1] in (GATHER, ("glob", "ext:asyncio.wait")) and is_awaited(evs, i)]
         last_acl = max([i for i, e in enumerate(evs) if e[0] == "call" and e[1][1][0] == "attr" and e[1][1][2] == "aclose"] or [-1])
         if not joins or joins[-1][0] < last_acl:
             chk.bad(rule, name, "close-all returns without awaiting the runner tasks: run() may end while a runner (and trio.run) is still unwinding", node=close.node, stmt="no-join")
@@ -103,6 +122,35 @@ def supervisor(chk):
             ok = False
     if ok:
         chk.ok(rule, name, "awaits aclose() of every runner in the unfiltered mapping, then a join over all runner tasks", node=close.node)
+
+
+def mapping_cleared(chk, rule):
+    """after a run has ended the runner mapping is empty again, so that registrations for the NEXT run are
+    queued instead of being sent to closed runners (shared by C01 and C12)"""
+    prog = chk.program
+    close = find_close_all(prog)
+    RUNNERS = ("attr", SELF, "_runners")
+    outs = Interp(prog, close, unroll=1).run()
+    chk.count(len(outs))
+    ok = True
+    for o in outs:
+        if o.kind not in ("normal", "return"):
+            continue
+        evs = o.path.events
+        cleared = [i for i, e in enumerate(evs) if (e[0] == "call" and e[1][1] == ("attr", RUNNERS, "clear")) or (e[0] == "store" and e[1] == RUNNERS and e[2] in (("dict", ()), ("call", ("glob", "ext:builtins.dict"), (), (), e[2][4] if len(e[2]) > 4 else 0)))]
+        closes = [i for i, e in enumerate(evs) if e[0] == "call" and e[1][1][0] == "attr" and e[1][1][2] == "aclose"]
+        if not cleared or (closes and cleared[-1] < closes[-1]):
+            chk.bad(
+                rule,
+                close.qual,
+                "close-all leaves the closed runners in the runner mapping: a payload registered before the NEXT run is handed to a dead runner instead of being queued, so its failure is lost (thread) or it is discarded (trio) and the next run never ends",
+                node=close.node,
+                stmt="runners-not-cleared",
+            )
+            ok = False
+            break
+    if ok:
+        chk.ok(rule, close.qual, "the runner mapping is cleared after all runners are closed", node=close.node)
 
 
 def asyncio_runner(chk):
@@ -358,9 +406,19 @@ def thread_runner(chk):
         if isinstance(node, ast.Assign) and any(isinstance(t, ast.Attribute) and t.attr == "daemon" for t in node.targets) and not (isinstance(node.value, ast.Constant) and node.value.value is True):
             chk.bad(rule, cls.qual, "thread.daemon is set to %s" % util.unparse(node.value), node=node, stmt="daemon-assign")
             ok = False
+    for node in ast.walk(cls.node):
+        if isinstance(node, ast.Attribute) and node.attr in ("is_alive", "isAlive"):
+            chk.bad(rule, cls.qual, "the thread runner polls whether payload threads are alive: closing it waits for blocked thread payloads, which then prevent termination", node=node, stmt="is_alive")
+            ok = False
+    ac = prog.lookup_method(cls, "aclose")
+    if ac is not None:
+        for node in ast.walk(ac.node):
+            if isinstance(node, (ast.While, ast.For, ast.AsyncFor)):
+                chk.bad(rule, ac.qual, "aclose of the thread runner loops (%s): it must not wait for thread payloads" % util.unparse(node).split("\n")[0], node=node, stmt="aclose-loops")
+                ok = False
     chk.floor(rule, n, 1)
     if ok:
-        chk.ok(rule, cls.qual, "every payload thread is a daemon thread and nobody joins them", node=cls.node)
+        chk.ok(rule, cls.qual, "every payload thread is a daemon thread; nobody joins or polls them; aclose does not loop", node=cls.node)
 
 
 def stop_chain(chk):
